@@ -6,7 +6,10 @@ import (
 	"os/exec"
 	"strings"
 	"sync"
+	"time"
 )
+
+const selfTestTimeout = 75 * time.Second
 
 // SelfTest proves replay determinism on a sample: the same runs are executed
 // in procs fresh processes spread over real GOMAXPROCS 1/4/16 and the
@@ -30,7 +33,23 @@ func SelfTest(exe, prop string, base uint64, nRuns, procs int, memMB int) (map[s
 			cmd.Stdout = &sb
 			var eb strings.Builder
 			cmd.Stderr = &limitedWriter{b: &eb, max: 4096}
-			if err := cmd.Run(); err != nil {
+			// a run that never returns (an endless loop in the code under test)
+			// must not hang the self-test: the main run's watchdog attributes it
+			done := make(chan error, 1)
+			if err := cmd.Start(); err != nil {
+				errs[p] = err
+				return
+			}
+			go func() { done <- cmd.Wait() }()
+			var err error
+			select {
+			case err = <-done:
+			case <-time.After(selfTestTimeout):
+				cmd.Process.Kill()
+				<-done
+				err = fmt.Errorf("no result within %v (a run does not terminate; the main run will attribute it)", selfTestTimeout)
+			}
+			if err != nil {
 				if _, ok := err.(*exec.ExitError); ok {
 					errs[p] = fmt.Errorf("selftest process %d: %v: %s", p, err, eb.String())
 				} else {
